@@ -13,7 +13,7 @@ use crate::seq::Seq;
 use crate::world::*;
 use std::time::Duration;
 
-const NS: [i32; 10] = [1, 9, 10, 11, 30, 599, 600, 601, 100_000, i32::MAX];
+const NS: [i32; 15] = [1, 9, 10, 11, 30, 599, 600, 601, 65_535, 65_536, 65_541, 66_135, 100_000, 131_079, i32::MAX];
 const WHEN: [&str; 3] = ["at-handout", "mid", "1ms-before-expiry"];
 const VIA: [&str; 2] = ["unary", "stream"];
 const BAD_IDS: [&str; 8] = ["", "abc", " 1", "1a", "99999999999999999999999999", "１", "-1", "1.0"];
